@@ -734,7 +734,7 @@ def parseSched : Nat → List String → Option (Par.Sched × List String)
 def handleC14 (args : List String) : String :=
   match args with
   | ["mt", f, chunks, outLen, sched, polys] =>
-    match chunks.toNat?, outLen.toNat?, parseSched 64 (sched.splitOn ",") with
+    match chunks.toNat?, outLen.toNat?, parseSched ((sched.splitOn ",").length + 1) (sched.splitOn ",") with
     | some ch, some ol, some (s, []) => withField f fun q sz =>
       let C := fieldCtx f q
       match (polys.splitOn ",").mapM (fun h => (hexVec q sz h).map List.toArray) with
